@@ -41,6 +41,7 @@ type skyFixture struct {
 	Wit        *WitEnv
 	WitLogs    []*WitLog
 	WitRun     *c15Run
+	WitRun2    *c15Run
 	Canary     string
 	cmd        *exec.Cmd
 	logf       *os.File
@@ -115,7 +116,11 @@ func newSkyFixture(r *Run, rng *Rng, logSizes []int) *skyFixture {
 	if err := e.AddLogs(true, mirrored); err != nil {
 		panic(err)
 	}
-	f.Wit, f.WitLogs = e, []*WitLog{plain, mirrored}
+	pow2 := newWitLog(rng.Fork("pow2"), "verif.example/witnessed-pow2", 400, nil, 0)
+	if err := e.AddLogs(true, pow2); err != nil {
+		panic(err)
+	}
+	f.Wit, f.WitLogs = e, []*WitLog{plain, mirrored, pow2}
 	cr := &c15Run{r: r, e: e, l: plain, rng: rng, tickets: map[int][]byte{}, noStoreAudit: true}
 	cr.addCheckpoint(17)
 	cr.addCheckpoint(33)
@@ -126,6 +131,13 @@ func newSkyFixture(r *Run, rng *Rng, logSizes []int) *skyFixture {
 	}
 	cm.addCheckpoint(600) // pending ahead of the mirror
 	f.WitRun = cm
+	// a mirror whose size is a power of two (a single right-edge hash)
+	cp2 := &c15Run{r: r, e: e, l: pow2, rng: rng, tickets: map[int][]byte{}, noStoreAudit: true}
+	for _, sz := range []int{100, 256} {
+		cp2.addCheckpoint(sz)
+		cp2.wellBehavedClient("fixture")
+	}
+	f.WitRun2 = cp2
 	wj, _ := json.Marshal(map[string]any{"name": e.Name, "verifier_keys": e.Wit.VerifierKeys()})
 	writeFileForce(filepath.Join(f.WitDir, "witness.v0.json"), wj)
 	mk, _ := e.Wit.MirrorVerifierKey()
@@ -137,6 +149,13 @@ func newSkyFixture(r *Run, rng *Rng, logSizes []int) *skyFixture {
 	os.WriteFile(filepath.Join(f.Canary, "checkpoint"), []byte("CANARY checkpoint\n"), 0o644)
 	os.WriteFile(filepath.Join(f.Canary, "tile", "0", "000"), []byte("CANARY tile"), 0o644)
 	os.WriteFile(filepath.Join(f.Base, "secret.txt"), []byte("CANARY secret"), 0o644)
+	// symbolic links planted inside a served directory that point out of it
+	d0 := f.Logs[0].D.Dir
+	os.Symlink(filepath.Join(f.Base, "secret.txt"), filepath.Join(d0, "issuer", strings.Repeat("ab", 32)))
+	os.Symlink(filepath.Join(f.Canary, "tile", "0", "000"), filepath.Join(d0, "tile", "0", "777"))
+	os.Symlink("../canary/checkpoint", filepath.Join(d0, "linked-checkpoint"))
+	os.Symlink(f.Canary, filepath.Join(d0, "linkdir"))
+	os.Symlink(f.Canary, filepath.Join(f.WitDir, strings.Repeat("cd", 32)))
 	return f
 }
 
